@@ -24,5 +24,6 @@ Conforms(in, obs) ==
 Describe(in) == IF in.mode = "single"
                 THEN SingleExecRun(in.tree, CfgOf(in), in.roots, in.pre, in.template, in.execdir, in.script, in.nocmd)
                 ELSE [reached |-> Paths(Reached(in.tree, CfgOf(in), in.roots, in.pre))]
+Beyond(in) == FALSE
 INSTANCE TraceCheck
 =============================================================================
